@@ -505,8 +505,10 @@ package pdf
 //@   requires forall i in 0..len(refs) :: refs[i] % 4294967296 < 16777216
 //@   havoc .Format .Put
 //@   loop 1: invariant len(refs) == len(objects)
-//@   loop 2: invariant len(refs) == len(objects) && w.xref != nil
-//@   loop 3: invariant len(refs) == len(objects) && N == len(objects)
+//@   loop 2: invariant len(refs) == len(objects) && len(objects) >= 1 && w.xref != nil && w.w != nil && forall i in 0..len(refs) :: refs[i] % 4294967296 < 16777216
+//@   loop 2: decreases len(objects)
+//@   loop 3: invariant len(refs) == len(objects) && w.xref != nil
+//@   loop 4: invariant len(refs) == len(objects) && N == len(objects)
 
 //@ func (*Writer).OpenStream (w, ref, dict, filters) (sw, err)
 //@   trusted
